@@ -28,12 +28,13 @@ const (
 	// since we'd prefer to convert our original type.
 	weightMatchingName = -1
 
-	// weightInheritedName is the weight to use for the edges to any value
-	// vertex whose name matches the name of a value that is being produced
-	// further up the stack (see callState.Affinity). It has to stay below
-	// weightTyped to be a preference at all, and above zero: with the
+	// weightInheritedName is the weight to use for the edges from typed
+	// arguments to any value vertex whose name matches a name that is being
+	// produced further up the stack, but not the nearest one (see
+	// callState.Affinity); every level further out adds one. It has to stay
+	// below weightTyped to be a preference at all, and above zero: with the
 	// negative weightMatchingName next to it, a vertex reached at no cost
-	// could be settled before the value with the matching name is looked at.
+	// could be settled before the value with the nearest name is looked at.
 	weightInheritedName = weightNormal
 )
 
